@@ -12,6 +12,7 @@ def rules(ctx):
     ctx.rule("FCH-1", "the first char of a grapheme's text is used for the whole grapheme only under a single-code-point test (locally or at every call site of the extracting function)")
     ctx.rule("CHR-1", "every assignment to the string entries of a grapheme is an element-wise map of the same entries (the entry is the unit of escaping)")
     ctx.rule("CNT-1", "the code-point counter behind the single-code-point test measures every unit it counts; a constant count needs a dominating length fact")
+    ctx.rule("SCP-1", "the single-code-point predicate is true only for a character class or for a literal with code-point count 1 and maximum 1")
     ctx.rule("CNT-2", "every length measurement behind the single-code-point test counts chars (Chars/CharIndices::count, or the length of an ASCII escaper result)")
 
 
@@ -174,6 +175,71 @@ def chr1(ctx, lib):
                 else:
                     ctx.undecided(rid, b.path, "cannot tell whether the assignment to `%s` keeps one entry per old entry: %s" % (fld, local.show(o)[:100]), b.loc(s_.get("line")))
     ctx.floor(rid, "assignments to the string entries of a grapheme", n, 1)
+
+
+def scp1(ctx, lib):
+    """SCP-1: the single-code-point predicate answers true only for a character class, or for a literal whose code-point counter is 1 *and* whose (only) grapheme is
+    not a repetition (maximum == 1).  `count == 1 || max == 1`, `max != 1` or a catch-all `true` arm make multi-character units pass for single code points (they are
+    then merged into bracket classes and lose their group under a quantifier)."""
+    rid = "SCP-1"
+    EXPR = "expression::Expression"
+    adt = lib.adts.get(EXPR)
+    preds = []
+    for pb in lib.bodies:
+        if pb.kind == "assoc_fn" and pb.sig_inputs == ["&" + EXPR] and pb.sig_output == "bool" and not pb.derived:
+            d = local.Defs(pb)
+            for _, blk in pb.iter_blocks():
+                for st in blk["stmts"]:
+                    if st["k"] == "assign" and st["rv"]["k"] == "binop" and st["rv"]["op"] == "Eq":
+                        for side in ("a", "b"):
+                            o = local.peel(d.operand(st["rv"][side]))
+                            if o[0] == "call" and lib.body(o[1]) is not None and lib.body(o[1]).sig_output == "usize" and "char" in o[1] and pb not in preds:
+                                preds.append(pb)
+    if not ctx.floor(rid, "single-code-point predicates", len(preds), 1) or not adt:
+        return
+    cls_variants = {str(i) for i, v in enumerate(adt["variants"]) if any("BTreeSet<char>" in norm(f["ty"]) for f in v["fields"])}
+    lit_variants = {str(i) for i, v in enumerate(adt["variants"]) if any("cluster::GraphemeCluster" in norm(f["ty"]) for f in v["fields"]) and len(v["fields"]) <= 3}
+    for pb in preds:
+        try:
+            leaves = ccp.Machine([lib]).run(pb, [ccp.Sym("self")])
+        except Exception as e:
+            ctx.undecided(rid, pb.path, str(e)[:80], pb.loc())
+            continue
+        bad, und = [], []
+        for l in leaves:
+            if l.kind != "return":
+                und.append("non-returning path")
+                continue
+            v = l.value
+            lab = dict(l.label)
+            variant = lab.get("discr(self)")
+            if isinstance(v, ccp.Const) and v.v is False:
+                continue
+            counted = any(re.match(r"^Eq\(.*char_count\(.*\), 1\)$", a) and val == "True" for a, val in l.label)
+            unrepeated_fact = any(re.match(r"^Eq\(.*max\w*\(.*\), 1\)$", a) and val == "True" for a, val in l.label)
+            if isinstance(v, ccp.Const) and v.v is True:
+                if variant in cls_variants:
+                    continue
+                if variant in lit_variants and counted and unrepeated_fact:
+                    continue
+                bad.append("true for %s" % (", ".join("%s=%s" % kv for kv in l.label) or "every expression"))
+                continue
+            txt = ccp.show(v)
+            if variant in lit_variants and counted and re.match(r"^Eq\(.*max\w*\(.*\), 1\)$", txt):
+                continue
+            if variant in lit_variants and unrepeated_fact and re.match(r"^Eq\(.*char_count\(.*\), 1\)$", txt):
+                continue
+            if re.match(r"^(?:Ne|Lt|Le|Gt|Ge)\(", txt) or (variant in lit_variants and not counted and not unrepeated_fact and re.match(r"^Eq\(", txt)):
+                bad.append("%s under %s" % (txt[:80], ", ".join("%s=%s" % kv for kv in l.label)[:120]))
+            else:
+                und.append(txt[:80])
+        if bad:
+            ctx.violation(rid, (pb.path, "single code point"), "the single-code-point predicate can answer true without `code-point count == 1 and maximum == 1` on a literal: %s; "
+                          "a multi-character or repeated unit is then merged into a bracket class or printed without its group" % "; ".join(bad[:3]), pb.loc())
+        elif und:
+            ctx.undecided(rid, pb.path, "a path returns %s" % und[0], pb.loc())
+        else:
+            ctx.ok(rid, pb.path, {"paths": len(leaves)}, pb.loc())
 
 
 def fch1(ctx, lib):
